@@ -10,10 +10,11 @@ Record case := {
   k_params : list (Z * option Z * bool * pcfg);          (* update_unchanged (ticks; -1 default), module setting,
                                                             has user write method, configuration with the interval the
                                                             implementation resolved *)
-  k_conns : list scope;
+  k_conns : list scope;                                  (* activation done before the history starts; SNone = none *)
+  k_nmods : nat;                                         (* number of modules of the node *)
   k_init : list cell;                                    (* cache after module initialisation *)
   k_now : Z;                                             (* clock when the history starts *)
-  k_progs : list (list op);
+  k_progs : list (list job);                             (* per thread: driver operations / connection requests *)
   k_sched : list nat;                                    (* thread index per scheduler step (threaded runs) *)
   k_threaded : bool;
   k_msgs : list (list msg);                              (* per connection, snapshot included, oldest first *)
@@ -21,7 +22,13 @@ Record case := {
 }.
 
 Definition mk_config (c : case) : config :=
-  {| g_tab := err_table; g_params := map snd (k_params c); g_conns := k_conns c |}.
+  {| g_tab := err_table; g_params := map snd (k_params c); g_conns := k_conns c; g_nmods := k_nmods c |}.
+
+(* the shapes read off the source *)
+Definition src_flags : flags :=
+  {| f_locked := announce_in_updateLock; f_reg_first := activate_registers_first;
+     f_snap_locked := snapshot_in_updateLock; f_private := broadcast_iterates_private_copy |}.
+Definition job_ops (js : list job) : list op := flat_map (fun j => match j with JOp o => [o] | JConn _ _ => [] end) js.
 
 Definition payload_eqb (a b : payload) : bool :=
   match a, b with
@@ -52,9 +59,9 @@ Definition state0 (c : case) : state :=
 Definition model_run (c : case) : state * bool :=
   let G := mk_config c in
   if k_threaded c then
-    let r := crun G announce_in_updateLock (cinit (state0 c) (k_progs c)) (k_sched c) in
+    let r := crun G src_flags (cinit (state0 c) (subs0 G) (k_progs c)) (k_sched c) in
     (cs_st r, cs_ok r && quiescent r)
-  else (run G (state0 c) (concat (k_progs c)), true).
+  else (run G (state0 c) (job_ops (concat (k_progs c))), true).
 
 Fixpoint conns_ok (s : state) (k : nat) (ms : list (list msg)) : bool :=
   match ms with
@@ -77,7 +84,7 @@ Fixpoint mods_sorted (ps : list pcfg) : bool :=
 Definition check_case (c : case) : bool :=
   let G := mk_config c in
   let '(s, ok) := model_run c in
-  ok && omit_ok c && mods_sorted (g_params G)
+  ok && omit_ok c && mods_sorted (g_params G) && forallb (fun P => Nat.ltb (p_mod P) (g_nmods G)) (g_params G)
   && Nat.eqb (length (k_msgs c)) (length (k_conns c))
   && conns_ok s 0 (k_msgs c)
   && list_eqb final_eqb (map (final_of G (s_heap s)) (s_cells s)) (k_final c).
